@@ -36,6 +36,17 @@ private theorem lastComp_snoc (ps : List Bytes) (l : Bytes) (hl : Spec.Loc.Plain
     lastComp false (ps ++ [l]) (ps ++ [l]).length = some ps.length := by
   simp [lastComp, plain_isComp hl]
 
+private theorem lastComp_prefix' (ps t : List Bytes) (h : ∀ c ∈ ps, Spec.Loc.Plain c) :
+    lastComp false (ps ++ t) ps.length = if ps = [] then none else some (ps.length - 1) := by
+  cases hps : ps.reverse with
+  | nil => simp at hps; simp [hps, lastComp]
+  | cons q qs =>
+    have hps' : ps = qs.reverse ++ [q] := by
+      have := congrArg List.reverse hps; simpa using this
+    subst hps'
+    have hq : Spec.Loc.Plain q := h q (by simp)
+    simp [lastComp, plain_isComp hq]
+
 private theorem lastComp_prefix (ps : List Bytes) (l : Bytes) (h : ∀ c ∈ ps, Spec.Loc.Plain c) :
     lastComp false (ps ++ [l]) ps.length = if ps = [] then none else some (ps.length - 1) := by
   cases hps : ps.reverse with
@@ -67,6 +78,16 @@ private theorem head_not_slash (ps : List Bytes) (l : Bytes)
       rw [List.cons_append] at *
       simp [this]; intro e; apply hs; simp [e, Spec.Loc.slash, slash]
 
+private theorem join_plain_ne_nil (ps : List Bytes) (l : Bytes)
+    (h : ∀ c ∈ ps ++ [l], Spec.Loc.Plain c) : joinWith slash (ps ++ [l]) ≠ [] := by
+  intro e
+  have hs := splitOn'_joinWith slash (ps ++ [l]) (by simp) (fun p hp => (h p hp).2.1)
+  rw [e] at hs
+  have hl := (h l (by simp)).1
+  cases ps with
+  | nil => simp [splitOn'] at hs; exact hl hs
+  | cons p ps => simp [splitOn'] at hs
+
 /-- `Path::parent` / `Path::file_name` on a relative path of plain components. -/
 theorem pathSplit_plain (dir : List Bytes) (l : Bytes)
     (hd : ∀ c ∈ dir, Spec.Loc.Plain c) (hl : Spec.Loc.Plain l) :
@@ -86,6 +107,56 @@ theorem pathSplit_plain (dir : List Bytes) (l : Bytes)
   simp only []
   have hget : (dir ++ [l]).getD dir.length [] = l := by simp
   rw [hget, lastComp_prefix dir l hd]
+  have h1 : (l = [dot, dot]) = False := by simpa [dot] using hdd
+  have h2 : (l = [dot]) = False := by simpa [dot] using hdot
+  simp only [h1, h2, if_false]
+  by_cases hdir : dir = []
+  · simp [hdir, joinWith]
+  · have : dir.length - 1 + 1 = dir.length := by
+      have : 0 < dir.length := List.length_pos_iff.mpr hdir
+      omega
+    simp [hdir, this]
+
+/-- The same with one trailing slash (`d/l/`): std ignores the empty last piece. -/
+theorem pathSplit_plain_trailing (dir : List Bytes) (l : Bytes)
+    (hd : ∀ c ∈ dir, Spec.Loc.Plain c) (hl : Spec.Loc.Plain l) :
+    pathSplit (joinWith slash (dir ++ [l]) ++ [slash]) = ⟨some (joinWith slash dir), some l⟩ := by
+  have hall : ∀ c ∈ dir ++ [l], Spec.Loc.Plain c := by
+    intro c hc; simp at hc; rcases hc with hc | hc
+    · exact hd c hc
+    · exact hc ▸ hl
+  have hpath : joinWith slash (dir ++ [l]) ++ [slash] = joinWith slash ((dir ++ [l]) ++ [[]]) := by
+    rw [joinWith_append_singleton slash (dir ++ [l]) [] (by simp)]
+  have hsplit : splitOn' slash (joinWith slash (dir ++ [l]) ++ [slash]) = dir ++ [l] ++ [[]] := by
+    rw [hpath]
+    exact splitOn'_joinWith slash _ (by simp) (fun p hp => by
+      simp at hp
+      rcases hp with hp | hp | hp
+      · exact (hd p hp).2.1
+      · exact hp ▸ hl.2.1
+      · simp [hp])
+  have hroot : ((joinWith slash (dir ++ [l]) ++ [slash]).head? = some slash) = False := by
+    have h0 := head_not_slash dir l hall
+    have hne : joinWith slash (dir ++ [l]) ≠ [] := join_plain_ne_nil dir l hall
+    cases hj : joinWith slash (dir ++ [l]) with
+    | nil => exact absurd hj hne
+    | cons x xs => rw [hj] at h0; simpa using h0
+  obtain ⟨hne, hns, hdot, hdd⟩ := hl
+  unfold pathSplit
+  simp only [hsplit, hroot, decide_false]
+  have hlc : lastComp false (dir ++ [l] ++ [[]]) (dir ++ [l] ++ [[]]).length = some dir.length := by
+    have : (dir ++ [l] ++ [[]]).length = dir.length + 1 + 1 := by simp
+    rw [this]
+    have e1 : (dir ++ [l] ++ [[]]).getD (dir.length + 1) [] = [] := by simp [List.getD]
+    have e2 : (dir ++ [l] ++ [[]]).getD dir.length [] = l := by simp [List.getD]
+    simp only [lastComp, e1, e2, plain_isComp ⟨hne, hns, hdot, hdd⟩]
+    simp [isComp, dot]
+  rw [hlc]
+  simp only []
+  have hget : (dir ++ [l] ++ [[]]).getD dir.length [] = l := by simp [List.getD]
+  have hpre : lastComp false (dir ++ [l] ++ [[]]) dir.length = if dir = [] then none else some (dir.length - 1) := by
+    rw [List.append_assoc]; exact lastComp_prefix' dir _ hd
+  rw [hget, hpre]
   have h1 : (l = [dot, dot]) = False := by simpa [dot] using hdd
   have h2 : (l = [dot]) = False := by simpa [dot] using hdot
   simp only [h1, h2, if_false]
@@ -130,6 +201,15 @@ theorem localize_plain (g : Spec.Loc.Game) (lang : Spec.Loc.Language) (dir : Lis
           cases ps <;> cases p <;> simp_all [joinWith]
       simp only [Option.map, if_neg hj, List.isEmpty_iff, if_neg hdir]
       simp [Spec.Loc.slash, slash]
+
+/-- A trailing slash changes nothing (`localize (p ++ "/") = localize p` on the domain). -/
+theorem localize_plain_trailing (g : Spec.Loc.Game) (lang : Spec.Loc.Language) (dir : List Bytes) (l : Bytes)
+    (hd : ∀ c ∈ dir, Spec.Loc.Plain c) (hl : Spec.Loc.Plain l) :
+    localize (mg g) (ml lang) (joinWith slash (dir ++ [l]) ++ [slash]) =
+      localize (mg g) (ml lang) (joinWith slash (dir ++ [l])) := by
+  have h1 := pathSplit_plain dir l hd hl
+  have h2 := pathSplit_plain_trailing dir l hd hl
+  cases g <;> simp only [localize, mg, parentAndFileName, h1, h2]
 
 /-- Degenerate paths are errors (never a panic): the empty path and `/` have no parent,
 `..` and `d/..` have no final component. -/
